@@ -556,6 +556,79 @@ pub fn run(ctx: &Ctx) {
         "word",
     );
 
+    // layout, exhaustive core: every combination of 7 separators in every gap of five short token sequences
+    // (including "no separator": maximal munch decides, and the reference lexer says what the text then denotes)
+    let seqs: Vec<Vec<&str>> = vec![
+        vec!["a", "+", "-", "i1", "-", "i2"],
+        vec!["f", "(", "[", "i1", ",", "]", ")"],
+        vec!["if", "a", "then", "b", "else", "c"],
+        vec!["a", ".", "b", ".", "0", ".", "f1"],
+        vec!["!", "a", "contains", "\"s\"", "/", "/", "x"],
+        vec!["i", "1", "in", "ty", "==", "=", "0x1", "f"],
+    ];
+    let seps = [" ", "", "\n", "\t", "// c\n", "\u{a0}", "\r\n"];
+    let mut combos: Vec<(usize, u64)> = vec![];
+    for (si, sq) in seqs.iter().enumerate() {
+        let gaps = sq.len() as u32 - 1;
+        let total = (seps.len() as u64).pow(gaps);
+        // sequences with more than 6 gaps are strided to stay within a fixed budget
+        let stride = (total / ctx.tier.pick(30_000u64, 1_000_000u64)).max(1);
+        let mut i = ctx.seed % stride;
+        while i < total {
+            combos.push((si, i));
+            i += stride;
+        }
+    }
+    let build = |si: usize, mut code: u64| -> String {
+        let sq = &seqs[si];
+        let mut t = String::from(sq[0]);
+        for w in &sq[1..] {
+            t.push_str(seps[(code % seps.len() as u64) as usize]);
+            code /= seps.len() as u64;
+            t.push_str(w);
+        }
+        t
+    };
+    ctx.enumerate(
+        "layout-combinations",
+        combos.len() as u64,
+        false,
+        |i, acc| {
+            let (si, code) = combos[i as usize];
+            let t = build(si, code);
+            let glued = t.len() < seqs[si].iter().map(|w| w.len()).sum::<usize>() + seqs[si].len() - 1;
+            acc.cell(if glued { "combo:some-gap-empty" } else { "combo:all-separated" }, true);
+            if i % 9973 == 0 {
+                acc.sample("combo", || format!("{t:?}"));
+            }
+            super::c07::check_text_against(&t, parse_expr(&t)).map_err(|i| Issue::new(i.sig.replace("grammar:", "layout:"), i.msg))
+        },
+        |i| {
+            let (si, code) = combos[i as usize];
+            json!({"source_text": build(si, code)})
+        },
+        "text",
+    );
+
+    // texts of the robustness generators (glued tokens, mutations, Unicode separators): tokenisation and tree must be the
+    // reference lexer's / parser's
+    let nt = ctx.tier.pick(40_000u64, 800_000u64);
+    ctx.random(
+        "generated-texts-vs-reference-lexer",
+        nt,
+        || gen::recipe(300),
+        |bytes, acc| {
+            let (t, class, _) = super::c06::random_text(bytes);
+            if let Some(acc) = acc {
+                let ok = parse_expr(&t).is_ok();
+                acc.case(&format!("text:{class}:{}", if ok { "accepted" } else { "rejected" }), !t.is_ascii() || t.contains("//") || ok, || t.clone());
+            }
+            super::c07::check_text_against(&t, parse_expr(&t)).map_err(|i| Issue::new(i.sig.replace("grammar:", "lexical:"), i.msg))
+        },
+        |bytes| json!({"source_text": super::c06::random_text(bytes).0}),
+        "text",
+    );
+
     // layout
     let nl = ctx.tier.pick(30_000u64, 600_000u64);
     ctx.random(
@@ -605,6 +678,9 @@ pub fn replay(j: &serde_json::Value) -> Option<Verdict> {
     }
     if let Some(w) = j.get("word").and_then(|x| x.as_str()) {
         return Some(check_word(w));
+    }
+    if let Some(t) = j.get("source_text").and_then(|x| x.as_str()) {
+        return Some(super::c07::check_text_against(t, parse_expr(t)));
     }
     if let Some(l1) = j.get("layout1").and_then(|x| x.as_str()) {
         let l2 = j.get("layout2")?.as_str()?;
